@@ -3,6 +3,7 @@
   key exactly once.  (Model: `Tx.Base`; spec: a plain map per keyspace.)
 -/
 import FjallModel.Lemmas.TxBase
+import FjallModel.Lemmas.Sw
 namespace Fjall.Tx
 open Fjall Fjall.Spec
 
@@ -60,3 +61,58 @@ example :
   decide
 
 end Fjall.Tx
+
+/-! ## Single-writer transactions across threads (all schedules) -/
+namespace Fjall.Sw
+open Fjall Fjall.Spec Fjall.Tx
+
+/-- **Single-writer write transactions never overlap and are serial, for every thread schedule.**
+    Any number of threads, each with any list of jobs (write transactions with any program ending
+    in commit or rollback/drop, and read-only snapshots), stepped in any order (`sched` = list of
+    thread ids; a step of a thread that waits for the lock is a no-op):
+    * at most one thread holds the single-writer lock (is between `write_tx` and the end of
+      `commit` / `rollback`);
+    * the committed log is exactly the batches of the committed transactions in commit order,
+      each computed on the log its predecessors left (`Chain`);
+    * every committed transaction returned, and wrote, exactly what it returns and writes when run
+      alone on that log (`Replays`) – the concurrent history equals the serial one;
+    * every read-only snapshot returned what it returns on a committed prefix of the log: nothing
+      of an unfinished transaction is ever visible outside. -/
+theorem c08_single_writer_serial (jobs : List (List Job)) (sched : List Nat) :
+    let s := run {} (init jobs) sched
+    (∀ a b, (s.threads a).phase.holds = true → (s.threads b).phase.holds = true → a = b) ∧
+    Chain s.done s.log ∧ (∀ d ∈ s.done, Replays d) ∧
+    (∀ d ∈ s.doneRo, (∀ i, (xrun (snapOf d.before i) d.prog).2 = d.outs) ∧
+      ∃ newer, s.log = newer ++ d.before) ∧
+    (∀ d ∈ s.done, ∃ (tid : Nat) (j : Job), j ∈ (jobs[tid]?).getD [] ∧ d.prog = j.ops) := by
+  intro s
+  have h := run_inv {} rfl (init jobs) sched (init_inv jobs)
+  exact ⟨holders_equal s h, h.chain, h.doneOk, h.roOk, (src_run {} jobs _ sched (src_init jobs)).fromJobs⟩
+
+/-- **No update is lost.** Threads that concurrently append to one key through single-writer
+    transactions (read-modify-write, any non-empty pieces `vs`, any schedule): the stored value is
+    the concatenation of the pieces of *all* committed transactions, in commit order. -/
+theorem c08_no_lost_update (jobs : List (List Job)) (sched : List Nat) (ks : KsId) (k : Key)
+    (vs : List Val) (hv : ∀ v ∈ vs, v ≠ [])
+    (hform : ((run {} (init jobs) sched).done.map (·.prog)) = vs.map (fun v => [appendOp ks k v])) :
+    (stateTop (run {} (init jobs) sched).log ks).get k = if vs = [] then none else some vs.flatten := by
+  have h := run_inv {} rfl (init jobs) sched (init_inv jobs)
+  exact appends_all_there ks k _ _ h.chain vs hform hv h.doneOk
+
+/-- With the snapshot opened *before* the lock is taken (seeded change C08-1) an update is lost:
+    two threads append one byte each, both commit, one byte is stored. -/
+theorem c08_snapshot_before_lock_counterexample :
+    let jobs := [[{ ops := [appendOp 1 [7] [1]] }], [({ ops := [appendOp 1 [7] [2]] } : Job)]]
+    let s := run { snapAfterLock := false } (init jobs) [0, 1, 0, 0, 0, 0, 1, 1, 1, 1]
+    s.done.length = 2 ∧ (stateTop s.log 1).get [7] = some [2] := by
+  decide
+
+/-! Non-vacuity: the same two jobs under the real protocol – the blocked thread's steps are no-ops,
+    both commit, both bytes are stored. -/
+example :
+    let jobs := [[{ ops := [appendOp 1 [7] [1]] }], [({ ops := [appendOp 1 [7] [2]] } : Job)]]
+    let s := run {} (init jobs) [0, 1, 0, 1, 0, 0, 1, 0, 1, 1, 1, 1, 1]
+    s.done.length = 2 ∧ (stateTop s.log 1).get [7] = some [1, 2] ∧ s.lock = none := by
+  decide
+
+end Fjall.Sw
